@@ -408,3 +408,33 @@ contract(SD + 'seed_task', props=['C11'],
          opaque_spec={'TileWorkerPool': {'pure': True}, 'TileWalker': {'pure': True}, 'walk': {'raises': ['KeyboardInterrupt']}, 'stop': {}},
          raises={'KeyboardInterrupt': True},
          trace=[_seed_task_setup])
+
+
+# ---- the key under which the progress of a task is saved identifies the task: seed name, cache, GRID and levels -------------------------
+def _progress_key(names):
+    def clause(ex, st, post, result):
+        import z3
+        from pyvc.values import VSeq
+        h = st.heap[post.env['self'].ref]
+        md = h['md']
+        ok = isinstance(result, VSeq) and result.concrete and len(result.items) >= len(names)
+        if ok:
+            for k, name in names:
+                t = getattr(result.items[k], 't', None)
+                if name is None:
+                    continue
+                ok = ok and t is not None and z3.is_app(t) and t.decl().name().startswith('opaque_item_%s_' % abs(hash(('s', name)))) \
+                    and t.num_args() == 1 and t.arg(0).eq(md.t)
+        yield ('progress_key_names_seed_cache_and_grid', z3.BoolVal(bool(ok)),
+               "the key is (.., md['name'], md['cache_name'], md['grid_name'], ..): two tasks of one seed that differ in cache OR grid "
+               "never share (and so never skip on) each other's saved progress")
+    return clause
+
+
+cls(SD + 'SeedTask', fields=dict(coverage='opaque', grid='opaque', md='opaque', levels='opaque'))
+cls(SD + 'CleanupTask', fields=dict(coverage='opaque', grid='opaque', md='opaque', levels='opaque'))
+contract(SD + 'SeedTask.id', props=['C11'], types={}, returns='opaque', default_callee='opaque',
+         opaque_spec={'tuple': {'pure': True}},
+         trace=[_progress_key([(0, 'name'), (1, 'cache_name'), (2, 'grid_name')])])
+contract(SD + 'CleanupTask.id', props=['C11', 'C12'], types={}, returns='opaque', default_callee='opaque',
+         trace=[_progress_key([(0, None), (1, 'name'), (2, 'cache_name'), (3, 'grid_name')])])
